@@ -102,4 +102,27 @@ def afterHandshake (s : SS) (e : End) : HalfResult :=
   let r := copyHalf (s.wire.filter (fun c => !c.isEmpty)) e
   { r with outs := (if s.buf = [] then [] else [.data s.buf]) ++ .flush :: r.outs, count := s.buf.length + r.count }
 
+/-- `write_all(&sbuf[..len])` on a destination that accepts `n_i` bytes per `write` call (a script of short counts; a
+    count is at least 1 — 0 would be the `WriteZero` error; an exhausted script = the destination takes the rest at
+    once): each call continues at the offset the previous one reached.  Result: the bytes on the wire. -/
+def writeAll : Nat → Bytes → List Nat → Bytes
+  | 0, _, _ => []
+  | _ + 1, [], _ => []
+  | _ + 1, chunk, [] => chunk
+  | f + 1, chunk, n :: ns =>
+    let k := min (max n 1) chunk.length
+    chunk.take k ++ writeAll f (chunk.drop k) ns
+
+/-- the variant of seeded change C01d: after a short write the loop starts again at offset 0 of the chunk and only counts
+    how much is left — the head is sent again, the tail never -/
+def writeAllRestarting : Nat → Bytes → Nat → List Nat → Bytes
+  | 0, _, _, _ => []
+  | f + 1, chunk, left, script =>
+    if left = 0 then [] else
+    match script with
+    | [] => chunk.take left
+    | n :: ns =>
+      let k := min (max n 1) left
+      chunk.take k ++ writeAllRestarting f chunk (left - k) ns
+
 end Redproxy.Relay
